@@ -56,14 +56,52 @@ fn det_def(seed: u64, i: usize) -> Def {
     }
 }
 
-/// One process: every definition generated in `threads` threads; prints per-definition hashes.
-pub fn det(seed: u64, count: usize, threads: usize) -> Value {
-    let mut defs = vec![];
-    for i in 0..count {
-        defs.push(det_def(seed, i));
+/// Groups of definitions whose attribute literals are spelled identically (same order, same mode)
+/// but mean something different: `ignore(case)` on one side only, a subpattern of the same name with
+/// another body, `#[token]` versus `#[regex]`.  Output that depends on what the thread or process
+/// generated before (caches keyed by spelling, one-shot flags) shows up on these.
+fn lookalike_source(seed: u64, i: usize) -> String {
+    let mut rng = Rng::derive(seed ^ 0xA11CE, (i / 4) as u64);
+    let word = rng.pick_str(&["[a-z]+k", "select|from|ask", "[k-s]{2,4}", "ms+"]).to_string();
+    let (body_a, body_b) = *rng.pick(&[("[0-9]+", "[a-f]+"), ("x|yy", "xx|y"), ("k+", "K+")]);
+    let third = rng.pick_str(&["a+", "b.c", "[=]+"]).to_string();
+    let utf8 = if rng.chance(1, 4) { "#[logos(utf8 = false)]\n" } else { "" };
+    let v = i % 4;
+    let icase = if v == 1 { ", ignore(case)" } else { "" };
+    let body = if v == 2 { body_b } else { body_a };
+    let third_attr = if v == 3 { "token" } else { "regex" };
+    format!(
+        "#[derive(Logos)]\n{utf8}#[logos(subpattern word = \"{body}\")]\nenum T {{\n    #[regex(\"{word}\"{icase})]\n    A,\n    #[regex(\"#(?&word)\")]\n    B,\n    #[{third_attr}(\"{third}\", priority = 30)]\n    C,\n}}\n"
+    )
+}
+
+/// The definitions of the determinism workload, as sources: generated definitions, look-alike groups
+/// and the fixed specimens of the must-reject categories (diagnostic texts are output too).
+pub fn det_sources(seed: u64, count: usize) -> Vec<String> {
+    let mut v = vec![];
+    // every fixed specimen of the must-reject categories once (cheap: rejected early)
+    for k in 0..category_specimen_count() {
+        let (src, _) = category_specimen_nth(k);
+        let src = match src.find(ENUM_MARKER) {
+            Some(at) => src[at + ENUM_MARKER.len()..].to_string(),
+            None => src,
+        };
+        v.push(src);
     }
-    // each definition in every thread (fresh hash-map keys per thread)
-    let per_thread: Vec<Vec<(u64, u64, usize)>> = {
+    for i in 0..count {
+        match i % 8 {
+            6 | 7 => v.push(lookalike_source(seed, i / 8 * 2 + i % 2)),
+            _ => v.push(det_def(seed, i).render()),
+        }
+    }
+    v
+}
+
+/// One process: every definition generated in `threads` threads, each thread in its own order
+/// (orders also depend on `proc`); prints per-definition hashes.
+pub fn det(seed: u64, count: usize, threads: usize, proc: usize) -> Value {
+    let defs = det_sources(seed, count);
+    let per_thread: Vec<Vec<(u64, u64, usize, u8)>> = {
         let defs = &defs;
         let out = std::sync::Mutex::new(vec![]);
         std::thread::scope(|sc| {
@@ -71,16 +109,20 @@ pub fn det(seed: u64, count: usize, threads: usize) -> Value {
                 let out = &out;
                 sc.spawn(move || {
                     crate::analyze::install_quiet_panic_hook();
-                    let mut v = vec![];
-                    // different threads walk the definitions in different orders
                     let n = defs.len();
                     let mut order: Vec<usize> = (0..n).collect();
-                    if t % 2 == 1 {
-                        order.reverse();
+                    match (proc + t) % 4 {
+                        0 => {}
+                        1 => order.reverse(),
+                        2 => order.rotate_left(n / 2),
+                        _ => {
+                            let mut r = Rng::derive(seed ^ 0x0DDE5, (proc * 64 + t) as u64);
+                            r.shuffle(&mut order);
+                        }
                     }
-                    let mut res = vec![(0u64, 0u64, 0usize); n];
+                    let mut res = vec![(0u64, 0u64, 0usize, 0u8); n];
                     for i in order {
-                        let a = analyze::run_generate(&defs[i]);
+                        let a = analyze::run_generate_source(&defs[i]);
                         let oh = match &a.outcome {
                             Outcome::Accepted => fnv1a(a.output.as_bytes()),
                             Outcome::Rejected(_) => fnv1a(a.output.as_bytes()) ^ 1,
@@ -89,33 +131,42 @@ pub fn det(seed: u64, count: usize, threads: usize) -> Value {
                         };
                         let gh = a.graph.as_ref().map(|g| fnv1a(serde_json::to_string(&g.to_json()).unwrap().as_bytes())).unwrap_or(0);
                         let states = a.graph.as_ref().map(|g| g.states.len()).unwrap_or(0);
-                        res[i] = (oh, gh, states);
+                        let kind = match &a.outcome { Outcome::Accepted => 0u8, Outcome::Rejected(_) => 1, Outcome::Panicked(_) => 2, Outcome::Unparsable(_) => 3 };
+                        res[i] = (oh, gh, states, kind);
                     }
-                    v.extend(res);
-                    out.lock().unwrap().push(v);
+                    out.lock().unwrap().push((t, res));
                 });
             }
         });
-        out.into_inner().unwrap()
+        let mut v = out.into_inner().unwrap();
+        v.sort_by_key(|x| x.0);
+        v.into_iter().map(|x| x.1).collect()
     };
     let mut violations = vec![];
     let mut hashes = vec![];
     let mut big = 0usize;
+    let mut rejected = 0usize;
+    let count = defs.len();
     for i in 0..count {
         let first = per_thread[0][i];
         if first.2 >= 8 {
             big += 1;
         }
+        if first.3 == 1 {
+            rejected += 1;
+        }
         for (t, th) in per_thread.iter().enumerate() {
             if th[i].0 != first.0 || th[i].1 != first.1 {
-                violations.push(violation("C16", "threads-disagree", &format!("definition {i}: thread 0 produced output/graph hashes {:x}/{:x}, thread {t} produced {:x}/{:x}", first.0, first.1, th[i].0, th[i].1), &defs[i], None, None));
+                violations.push(json!({"property": "C16", "level": "L", "rule": "threads-disagree",
+                    "detail": format!("definition {i}: thread 0 produced output/graph hashes {:x}/{:x}, thread {t} (another generation order) produced {:x}/{:x}", first.0, first.1, th[i].0, th[i].1),
+                    "definition": defs[i]}));
                 break;
             }
         }
         hashes.push(json!([format!("{:016x}", first.0), format!("{:016x}", first.1)]));
     }
-    json!({"property": "C16", "definitions": count, "threads": threads, "definitions_with_8_or_more_states": big, "hashes": hashes, "violations": violations,
-           "sample": defs.get(0).map(|d| d.render())})
+    json!({"property": "C16", "definitions": count, "fixed_specimens": category_specimen_count(), "threads": threads, "definitions_with_8_or_more_states": big, "rejected_definitions": rejected, "hashes": hashes, "violations": violations,
+           "sample": defs.get(0)})
 }
 
 // ------------------------------------------------------------------------------------------------
